@@ -267,6 +267,20 @@ impl KeyboardLayout for Echo {
     }
 }
 
+/// A layout that counts how often it is consulted and answers with the running count (U+E0000 + n): the n-th
+/// consultation of the object returns a value no other consultation returns. Used by C14 to show that the decoder
+/// consults its layout exactly once per ordinary key press and never otherwise (a layout is free to keep state behind
+/// `&self`, e.g. a pending dead key; an extra consultation whose answer is thrown away would disturb it).
+#[derive(Debug)]
+pub struct Count(pub std::cell::Cell<u32>);
+impl KeyboardLayout for Count {
+    fn map_keycode(&self, _k: KeyCode, _m: &Modifiers, _hc: HandleControl) -> DecodedKey {
+        let n = self.0.get() + 1;
+        self.0.set(n);
+        DecodedKey::Unicode(char::from_u32(0xE0000 + n).unwrap_or('\u{E0000}'))
+    }
+}
+
 pub fn dk_text(d: &DecodedKey) -> String {
     match d {
         DecodedKey::Unicode(c) if (*c as u32) >= 0x10000 && (*c as u32) < 0x50000 => echo_text(*c),
